@@ -1033,6 +1033,149 @@ def broken_facet(ctx, res, n_cuts):
             res.disagreements.append(dict(facet='listing_broken', case=case, model=d[0], impl=d[1]))
 
 
+# ---------------------------------------------------------------------- reader instances are independent
+
+def digest_view(view):
+    index, time_, step, tabs = view
+    out = {'hdr': repr((int(index), bits(time_), int(step))), 'tables': {}}
+    for name in sorted(tabs):
+        rows, cols, m = tabs[name]
+        h = hashlib.sha256()
+        h.update(repr((rows, cols)).encode())
+        h.update(m.tobytes())
+        out['tables'][name] = h.hexdigest()[:20]
+    return out
+
+
+def digests_of(lst):
+    out = []
+    for i in range(lst.num_fulltimes):
+        lst.index = i
+        out.append(digest_view(dump_view(lst)))
+    return out
+
+
+def construct(path, how, shared=None):
+    """the constructor as a caller would use it: 'default' passes no skip_tables at all, 'shared' passes one list object
+    that the caller re-uses for several readers"""
+    import io, contextlib, warnings
+    with contextlib.redirect_stdout(io.StringIO()), warnings.catch_warnings():
+        warnings.simplefilter('ignore')
+        import t2listing
+        if how == 'default':
+            return t2listing.t2listing(str(path))
+        return t2listing.t2listing(str(path), shared)
+
+
+def job_digest(job):
+    """one file in a process of its own: table names and a digest of every table at every result time"""
+    path = listing_base() / job['rel']
+    lst = open_listing(path, job.get('skip') or [])
+    out = dict(rel=job['rel'], skip=job.get('skip') or [], names=list(lst.table_names), digests=digests_of(lst))
+    lst.close()
+    return out
+
+
+STEPPED_FIRST = 'TOUGH2/11/case11.listing'     # a table ('primary') that first appears at its third result time
+
+
+def diff_digests(base, got_names, got):
+    if sorted(base['names']) != sorted(got_names):
+        return 'exposes tables %r, alone in a process it exposes %r' % (sorted(got_names), sorted(base['names']))
+    if len(base['digests']) != len(got):
+        return '%d result times, alone %d' % (len(got), len(base['digests']))
+    for i, (a, b) in enumerate(zip(base['digests'], got)):
+        if a['hdr'] != b['hdr']:
+            return 'result %d: index/time/step %s, alone %s' % (i, b['hdr'], a['hdr'])
+        for name in a['tables']:
+            if a['tables'][name] != b['tables'].get(name):
+                return 'result %d: table %s differs from what the same file shows alone in a process' % (i, name)
+    return None
+
+
+def job_shared(job, progress):
+    """many readers in ONE process, constructed as callers do (no skip_tables argument; one skip list object re-used):
+    phase 1 opens every listing with several result times and keeps it open; phase 2 opens TOUGH2/11 and steps it through
+    all its result times; phase 3 moves the readers of phase 1 through their result times; phase 4 opens all shipped
+    listings again; phase 5 does the same with one shared list object ['connection'].  Every reader must show exactly
+    what the same file shows alone in a process of its own (job_digest)."""
+    base = {(b['rel'], tuple(b['skip'])): b for b in job['baseline']}
+    files = [rel for rel, fam in corpus()]
+    out = dict(violations=[], stats=Counter())
+    st = out['stats']
+
+    def check(rel, skip, names, got, phase):
+        st['shared-readers-compared'] += 1
+        d = diff_digests(base[(rel, tuple(skip))], names, got)
+        if d:
+            out['violations'].append(dict(key='instances-not-independent:%s' % rel.split('/')[0],
+                                          what='%s opened in a process shared with other readers (%s): %s' % (rel, phase, d),
+                                          case=dict(file=rel, shared_process=True, phase=phase)))
+
+    import gc
+    multi = [rel for rel in files if len(base[(rel, ())]['digests']) >= 2 and rel != STEPPED_FIRST]
+    progress({'phase': 1})
+    early = [(rel, construct(listing_base() / rel, 'default')) for rel in multi]
+    progress({'phase': 2})
+    first = None
+    if STEPPED_FIRST in files:
+        first = construct(listing_base() / STEPPED_FIRST, 'default')
+        while first.next():
+            pass
+        first.first()
+        check(STEPPED_FIRST, [], list(first.table_names), digests_of(first), 'default arguments, stepped through all its result times')
+    progress({'phase': 3})
+    for rel, lst in early:
+        check(rel, [], list(lst.table_names), digests_of(lst), 'default arguments, opened before %s was stepped, then moved' % STEPPED_FIRST)
+    progress({'phase': 4})
+    later = []
+    for rel in files:
+        lst = construct(listing_base() / rel, 'default')
+        later.append(lst)
+        check(rel, [], list(lst.table_names), digests_of(lst), 'default arguments, opened after %s was stepped' % STEPPED_FIRST)
+    progress({'phase': 5})
+    shared = ['connection']
+    order = ([STEPPED_FIRST] if STEPPED_FIRST in files else []) + [r for r in files if r != STEPPED_FIRST and (r, ('connection',)) in base]
+    keep = []
+    for rel in order:
+        if (rel, ('connection',)) not in base:
+            continue
+        lst = construct(listing_base() / rel, 'shared', shared)
+        keep.append(lst)
+        if rel == STEPPED_FIRST:
+            while lst.next():
+                pass
+        check(rel, ['connection'], list(lst.table_names), digests_of(lst), 'one skip list object [\'connection\'] passed to several readers')
+    if shared != ['connection']:
+        out['violations'].append(dict(key='caller-list-modified', what='the skip_tables list a caller passed was changed to %r' % (shared,),
+                                      case=dict(shared_process=True, phase='shared list')))
+    for x in [l for _, l in early] + later + keep + ([first] if first else []):
+        try: x.close()
+        except Exception: pass
+    return out
+
+
+def shared_process_facet(ctx, res):
+    """oracle facet shared_process: reader instances are independent of one another"""
+    files = corpus()
+    jobs = [dict(rel=rel) for rel, fam in files]
+    sc_names = {}
+    for rel, fam in files:
+        sc = Scan((listing_base() / rel).read_bytes(), fam)
+        if sc.blocks and any(t.name == 'connection' for t in sc.blocks[0]):
+            jobs.append(dict(rel=rel, skip=['connection']))
+    baseline = run_jobs('job_digest', jobs, timeout=ctx.n(120, 300), fresh=True)
+    baseline = [b for b in baseline if not isinstance(b, Timeout)]
+    r = run_jobs('job_shared', [dict(baseline=baseline)], timeout=ctx.n(120, 300), nworkers=1, fresh=True)[0]
+    f = res.facet('shared_process')
+    if isinstance(r, Timeout):
+        res.violations.append(dict(key='shared-process-hangs', what='readers sharing a process: no answer (%r)' % (r.info,), case=dict(shared_process=True)))
+        return
+    f['cases'] = r['stats'].get('shared-readers-compared', 0)
+    res.count('shared-readers-compared', f['cases'])
+    res.violations += r['violations']
+
+
 # ====================================================================== worker pool with per-job timeouts
 
 def _worker_main(conn, fname_module, fname):
@@ -1059,7 +1202,8 @@ def _worker_main(conn, fname_module, fname):
 class Pool:
     """runs jobs in forked workers; a job that exceeds `timeout` seconds has its worker killed and yields
     ('timeout', None).  results come back in job order."""
-    def __init__(self, module, fname, nworkers=None, timeout=120.0):
+    def __init__(self, module, fname, nworkers=None, timeout=120.0, fresh=False):
+        self.fresh = fresh          # a new worker process for every job (nothing a job leaves behind can reach the next)
         self.module, self.fname = module, fname
         self.n = nworkers or max(2, min(6, (os.cpu_count() or 4) // 2))
         self.timeout = timeout
@@ -1106,6 +1250,12 @@ class Pool:
                         results[j] = msg
                         w[2] = None
                         active -= 1
+                        if self.fresh:
+                            try: w[1].send(None)
+                            except Exception: pass
+                            w[0].join(1)
+                            if w[0].is_alive(): w[0].kill()
+                            workers[k] = self._spawn()
                     else:
                         limit = (timeouts[j] if timeouts else None) or self.timeout
                         if now - w[3] > limit:
@@ -1130,10 +1280,10 @@ class Pool:
         return results
 
 
-def run_jobs(fname, jobs, timeout=120.0, nworkers=None, module=None):
+def run_jobs(fname, jobs, timeout=120.0, nworkers=None, module=None, fresh=False):
     """run jobs through the pool; a machinery error raises (-> exit 2); a job that timed out yields
     Timeout(last progress info it reported)"""
-    pool = Pool(module or __name__, fname, nworkers=nworkers, timeout=timeout)
+    pool = Pool(module or __name__, fname, nworkers=nworkers, timeout=timeout, fresh=fresh)
     out = []
     for j, r in zip(jobs, pool.run(jobs)):
         if r[0] == 'error':
@@ -1306,6 +1456,7 @@ def run(ctx):
     res.hyp['file positions remembered by the reader are line starts (the model abstracts byte offsets to line numbers)'] = \
         [res.stats.get('positions-at-line-start', 0), res.stats.get('positions-remembered', 0)]
     res.facet('oracle_tables')['cases'] = res.stats.get('tables-checked', 0)
+    shared_process_facet(ctx, res)
     if ctx.model_ok:
         correspond(ctx, res, jobs, results)
         broken_facet(ctx, res, ctx.n(24, 300))
@@ -1589,6 +1740,12 @@ def search(ctx, seconds, res):
 
 def replay(ctx, payload):
     c = payload.get('case') or {}
+    if c.get('shared_process'):
+        r2 = Result()
+        shared_process_facet(ctx, r2)
+        if r2.violations:
+            return True, '\n'.join(v['what'] for v in r2.violations[:5])
+        return False, 'readers sharing a process show what each file shows alone (%d readers compared)' % r2.stats.get('shared-readers-compared', 0)
     if 'file' not in c:
         return False, 'replay file names what no longer checks: %s' % payload.get('broken')
     rel = c['file']
